@@ -91,6 +91,32 @@ template<size_t R>
 static void run_r(const std::string& cmd, std::istream& is)
 {
 	if (cmd == "RADIXP") { size_t n; is >> n; run_ptr<R>(is, n); return; }
+	if (cmd == "GCYC")
+	{	// the real private cycle-leader overload pvRadixSort<Code>(begin, codeGetter, iterSwapper, shift, endIndexes) of RadixSorter<R>
+		// on 64-bit codes; the bucket table is computed here (histogram + prefix sums): GCYC R shift n codes...
+		size_t sh, n; is >> sh >> n; std::vector<uint64_t> v(n + 2, 0x5555555555555555ull);
+		for (size_t i = 0; i < n; ++i) { ull x; is >> x; v[i + 1] = x; }
+		uint64_t* b = v.data() + 1; const size_t RC = size_t(1) << R;
+		std::array<size_t, (size_t(1) << R)> ends; ends.fill(0);
+		for (size_t i = 0; i < n; ++i) ++ends[(b[i] >> sh) & (RC - 1)];
+		for (size_t r = 1; r < RC; ++r) ends[r] += ends[r - 1];
+		std::ostringstream os, og;
+		auto codeGetter = [] (uint64_t* p) { return *p; };
+		auto swapper = [b, &og] (uint64_t* x, uint64_t* y) { og << (x - b) << "-" << (y - b) << " "; std::iter_swap(x, y); };
+		internal::RadixSorter<R>::template pvRadixSort<uint64_t>(b, codeGetter, swapper, sh, ends);
+		for (size_t i = 0; i < n; ++i) os << ull(b[i]) << (i + 1 < n ? " " : "");
+		std::string g = og.str(); if (!g.empty()) g.pop_back();
+		bool guards = v[0] == 0x5555555555555555ull && v[n + 1] == 0x5555555555555555ull;
+		printf("%s%s | %s\n", guards ? "" : "OOB ", os.str().c_str(), g.c_str());
+		return;
+	}
+	if (cmd == "GRADIX")
+	{	// the real private pvGetRadix<Code>(code, shift) of RadixSorter<R>: GRADIX R W code shift
+		size_t w; ull code, sh; is >> w >> code >> sh;
+		printf("%llu\n", ull(w == 8 ? internal::RadixSorter<R>::template pvGetRadix<uint8_t>(uint8_t(code), sh)
+		                             : internal::RadixSorter<R>::template pvGetRadix<uint64_t>(uint64_t(code), sh)));
+		return;
+	}
 	if (cmd == "RADIXI")
 	{
 		size_t w, n; is >> w >> n;
@@ -134,6 +160,12 @@ int main()
 	while (std::getline(std::cin, line))
 	{
 		std::istringstream is0(line); std::string cmd0; is0 >> cmd0;
+		if (cmd0 == "PCODE")
+		{	// the pointer code getter: code of &g_pool[i] relative to the code of &g_pool[0], in bytes
+			size_t i; is0 >> i; int* p0 = g_pool; int* p = g_pool + (i & 0xFFFF);
+			uintptr_t c0 = internal::RadixSorterCodeGetter<int**>()(&p0), c = internal::RadixSorterCodeGetter<int**>()(&p);
+			printf("%llu %d\n", ull(c - c0), int(c == reinterpret_cast<uintptr_t>(p))); continue;
+		}
 		if (cmd0 == "GSEL")
 		{	// the real private RadixSorter<8>::pvSelectionSort on an array of 64-bit codes; ALL groupFunc calls are logged
 			size_t n; is0 >> n; std::vector<uint64_t> v(n + 2, 0x5555555555555555ull);
